@@ -40,6 +40,7 @@ type Solver struct {
 	MaxQ    time.Duration
 	Slow    int
 	log     io.Writer
+	logLeft int // check-sat commands still to be logged (the stream is cut after that many)
 }
 
 func NewSolver(bin string, args ...string) *Solver {
@@ -202,6 +203,14 @@ func (s *Solver) Check(extra *Term) string {
 			}
 		}
 	}
+	if s.log != nil {
+		// this back end's own answer, for the cross-check of the stream on another solver
+		fmt.Fprintf(s.log, "; answer %s\n", r)
+		s.logLeft--
+		if s.logLeft <= 0 || s.dead {
+			s.log = nil
+		}
+	}
 	if r == "unknown" && s.fallback != nil {
 		s.Fallbacks++
 		s.usedFB = true
@@ -362,4 +371,65 @@ func expand(t *Term, d int) string {
 		out += " " + expand(a, d-1)
 	}
 	return out + ")"
+}
+
+
+// crossCheck replays a logged SMT-LIB stream (one worker's complete dialogue with its first back end) on another solver
+// and compares the check-sat answers one by one. Definite answers (sat / unsat) must agree; unknown on either side is
+// skipped. Returns the number of answers compared and a description of every disagreement.
+func crossCheck(logFile, bin string, args []string, limit time.Duration) (compared int, disagreements []string, note string) {
+	data, err := os.ReadFile(logFile)
+	if err != nil {
+		return 0, nil, "no stream logged"
+	}
+	var want []string
+	for _, l := range strings.Split(string(data), "\n") {
+		if strings.HasPrefix(l, "; answer ") {
+			want = append(want, strings.TrimPrefix(l, "; answer "))
+		}
+	}
+	cmd := exec.Command(bin, args...)
+	cmd.Stdin = strings.NewReader("(set-option :global-declarations true)\n(set-option :produce-models true)\n" + string(data) + "\n(exit)\n")
+	outp, _ := cmd.StdoutPipe()
+	cmd.Stderr = cmd.Stdout
+	if err := cmd.Start(); err != nil {
+		return 0, nil, "cannot start " + bin
+	}
+	timer := time.AfterFunc(limit, func() { cmd.Process.Kill() })
+	defer timer.Stop()
+	rd := bufio.NewReader(outp)
+	k := 0
+	for {
+		l, err := rd.ReadString('\n')
+		if err != nil {
+			break
+		}
+		l = strings.TrimSpace(l)
+		if strings.HasPrefix(l, "(error") && !strings.Contains(l, "model is not available") && len(disagreements) < 5 {
+			// an error line makes the replay unusable from here on (the stacks no longer correspond)
+			disagreements = append(disagreements, "error line from "+bin+": "+truncate(l, 160))
+		}
+		if l != "sat" && l != "unsat" && l != "unknown" {
+			continue
+		}
+		if k >= len(want) {
+			break
+		}
+		if l != "unknown" && want[k] != "unknown" {
+			compared++
+			if l != want[k] {
+				if len(disagreements) < 5 {
+					disagreements = append(disagreements, fmt.Sprintf("query %d: %s vs %s", k, want[k], l))
+				} else if len(disagreements) == 5 {
+					disagreements = append(disagreements, "...")
+				}
+			}
+		}
+		k++
+	}
+	cmd.Wait()
+	if k < len(want) && note == "" {
+		note = fmt.Sprintf("replay ended after %d of %d queries (time limit)", k, len(want))
+	}
+	return
 }
